@@ -445,6 +445,7 @@ impl Version {
                     copy.entry(blob_file.blob_file_id)
                         .and_modify(|counter| {
                             counter.bytes += blob_file.bytes;
+                            counter.on_disk_bytes += blob_file.on_disk_bytes;
                             counter.len += blob_file.len;
                         })
                         .or_insert_with(|| {
